@@ -549,6 +549,11 @@ func (a *AddrManager) changePrivPassphrase(amBucket db.Bucket, oldPrivPass []byt
 	if err != nil {
 		return err
 	}
+	// checkPassword leaves the master key derived on a locked manager: do not keep
+	// it in memory, whatever happens below.
+	if !a.unlocked {
+		defer a.masterKeyPriv.Zero()
+	}
 	//check password
 	var masterPrivKey snacl.SecretKey
 	defer masterPrivKey.Zero()
